@@ -135,6 +135,9 @@ pub struct Harness {
 
     // DROPCTX happened: the script may not create a second Context.
     ctx_dropped: bool,
+
+    // HOLD: tasks the executor does not pick (an executor is free to delay a woken task).
+    held_tasks: BTreeSet<TaskId>,
 }
 
 impl Harness {
@@ -151,6 +154,7 @@ impl Harness {
             reader: None,
             writer: None,
             ctx_dropped: false,
+            held_tasks: BTreeSet::new(),
         }
     }
 
@@ -262,6 +266,12 @@ impl Harness {
                 self.ops.insert(id, Task::new(ops::op_future(handle, kind)));
             }
             Event::Poll(task) => self.poll_task(task),
+            Event::Hold(task) => {
+                self.held_tasks.insert(task);
+            }
+            Event::Release(task) => {
+                self.held_tasks.remove(&task);
+            }
             Event::Drop(DropTarget::Op(id)) => drop(self.ops.remove(&id)),
             Event::Drop(DropTarget::St(id)) => drop(self.streams.remove(&id)),
             Event::Drop(DropTarget::Rsp(id)) => drop(self.held.remove(&id)),
@@ -307,13 +317,23 @@ impl Harness {
     }
 
     fn first_flagged(&self) -> Option<TaskId> {
-        if self.ctx_task.as_ref().is_some_and(Task::is_flagged) {
+        if self.ctx_task.as_ref().is_some_and(Task::is_flagged)
+            && !self.held_tasks.contains(&TaskId::Ctx)
+        {
             return Some(TaskId::Ctx);
         }
-        if let Some((id, _)) = self.ops.iter().find(|(_, task)| task.is_flagged()) {
+        if let Some((id, _)) = self
+            .ops
+            .iter()
+            .find(|(id, task)| task.is_flagged() && !self.held_tasks.contains(&TaskId::Op(**id)))
+        {
             return Some(TaskId::Op(*id));
         }
-        if let Some((id, _)) = self.streams.iter().find(|(_, task)| task.is_flagged()) {
+        if let Some((id, _)) = self
+            .streams
+            .iter()
+            .find(|(id, task)| task.is_flagged() && !self.held_tasks.contains(&TaskId::St(**id)))
+        {
             return Some(TaskId::St(*id));
         }
         None
@@ -400,7 +420,7 @@ impl Harness {
         if self.cfg.sweep {
             for id in self.live_tasks() {
                 // Skipped: finished meanwhile, or flagged by an earlier sweep poll (runs in the drain).
-                if self.is_flagged(id) == Some(false) {
+                if self.is_flagged(id) == Some(false) && !self.held_tasks.contains(&id) {
                     self.poll_task(id);
                 }
             }
